@@ -117,6 +117,8 @@ static void worker(Round &R, int tid, unsigned seed, int nops, const std::string
         if (r != "int:" + std::to_string(2 * k + 1)) R.fail("shared_f(" + std::to_string(k) + ") -> " + r);
         r = eval_render(chai, "shared_sum([1, 2, " + std::to_string(k) + "])");
         if (r != "int:" + std::to_string(3 + k)) R.fail("shared_sum -> " + r);
+        r = eval_render(chai, "shared_f(shared_int) + shared_sum(shared_vec) + pass_on(shared_int) + int(shared_str.size()) + fun[shared_int]() { shared_int }()");
+        if (r != "int:119") R.fail("shared objects as arguments -> " + r);
         break;
       }
       case 2: { // local with a name every thread uses
@@ -233,6 +235,8 @@ int main(int argc, char **argv) {
     Round R;
     R.chai = vh::make_engine(true, {}, {usedir + "/"});
     R.chai->eval("def shared_f(x) { x * 2 + 1 }\ndef shared_sum(v) { var s = 0; for (e : v) { s += e }; s }");
+    // objects every thread reads: passed by name as arguments, captured, used as method receivers (reading shared objects must not write to them)
+    R.chai->eval("global shared_int = 21\nglobal shared_vec = [1, 2, 3]\nglobal shared_str = \"shared\"\ndef pass_on(x) { shared_f(x) }");
     R.chai->add(fun([](int x) { return x; }), "take_int");
     auto *counter = &R.use_count;
     R.chai->add(fun([counter]() { counter->fetch_add(1); }), "bump_use");
